@@ -276,17 +276,17 @@ TYPE_POOL = ["any", "any", "int", "str", "neg"]
 STYLES = list(STYLE_TABLE)
 
 
-def gen_fields(rng, kind, n=None):
+def gen_fields(rng, kind, n=None, p_default=0.5):
     n = n or rng.choice([1, 2, 2, 3, 3, 4, 5])
     names = rng.sample(NAME_POOL, n)
     fields = []
     for name in names:
         tp = rng.choice(TYPE_POOL)
         if kind == "typeddict":
-            fields.append({"id": name, "required": rng.random() < 0.6, "default": None, "type": tp})
+            fields.append({"id": name, "required": rng.random() < 1.1 - p_default, "default": None, "type": tp})
             continue
         r = rng.random()
-        if r < 0.5:
+        if r < 1 - p_default:
             dflt = None
         elif tp in ("int", "neg"):
             dflt = {"v": rng.choice([0, 1, 7])}
@@ -413,7 +413,8 @@ def gen_result(rng, allow_list=True, for_many=False):
 
 def gen_program(rng, kind=None, oracle_friendly=False):
     kind = kind or rng.choice(["dataclass", "dataclass", "dataclass", "typeddict", "kwclass"])
-    fields = gen_fields(rng, kind)
+    want_list = rng.random() < 0.22          # list layouts need required fields
+    fields = gen_fields(rng, kind, p_default=0.12 if want_list else 0.5)
     has_parent = kind == "dataclass" and len(fields) >= 2 and rng.random() < 0.3
     if has_parent:
         k = rng.randint(1, len(fields) - 1)
@@ -437,6 +438,8 @@ def gen_program(rng, kind=None, oracle_friendly=False):
                     "form": rng.choice(["str", "list"])}
         if len(extra_in["targets"]) > 1:
             extra_in["form"] = "list"
+    if want_list and extra_in not in ("skip", "forbid") and rng.random() < 0.9:
+        extra_in = rng.choice(["skip", "forbid"])       # only ExtraSkip / ExtraForbid can be used with lists
     collect = extra_in not in ("skip", "forbid")
     allow_list = not collect or rng.random() < 0.1
     if rng.random() < 0.7:
@@ -450,8 +453,12 @@ def gen_program(rng, kind=None, oracle_friendly=False):
             eff["extra_out"] = "extract"
         elif r < 0.4:
             eff["extra_out"] = "skip"
-    if rng.random() < 0.3:
-        eff["as_list"] = allow_list and rng.random() < 0.8
+    if want_list or rng.random() < 0.1:
+        eff["as_list"] = allow_list and (want_list or rng.random() < 0.5)
+        if eff["as_list"] and rng.random() < 0.35:
+            # "You can override the order of fields using map": positions with gaps
+            pos = rng.sample(range(len(fields) + 2), len(fields))
+            eff.setdefault("map", []).append({"k": "dict", "tbl": [[f["id"], [i]] for f, i in zip(fields, pos) if rng.random() < 0.8]})
     if rng.random() < 0.45:
         eff["style"] = rng.choice(STYLES + [None])
     if rng.random() < 0.3:
@@ -460,7 +467,7 @@ def gen_program(rng, kind=None, oracle_friendly=False):
         eff["skip"] = gen_preds(rng, fields)
     if rng.random() < 0.2:
         eff["only"] = gen_preds(rng, fields) + [{"name": i} for i in ids if rng.random() < 0.6]
-    if rng.random() < 0.6:
+    if rng.random() < 0.6 and "map" not in eff:
         eff["map"] = gen_map(rng, fields, allow_list)
     if rng.random() < 0.45:
         eff["omit_default"] = rng.choice([True, True, False]) if rng.random() < 0.6 else gen_preds(rng, fields)
@@ -959,11 +966,20 @@ class Real:
 
 
 def saturator(obj, extra):
-    obj.saturated_ = dict(extra)
+    obj.saturated_ = extra
+
+
+class ExtractMarkerError(Exception):
+    pass
 
 
 def extractor(obj):
-    return dict(getattr(obj, "saturated_", None) or {"xk": 1})
+    res = getattr(obj, "extract_result_", None)
+    if res is None:
+        return {"xk": 1}
+    if "err" in res:
+        raise ExtractMarkerError("extract")
+    return dict(res["v"])
 
 
 def canon_layout(j):
@@ -1519,6 +1535,7 @@ def oracle_crown_load(ctx, prog, label, datum, mode, strict, real_out, suite="ge
     kinds = {f["id"]: f["type"] for f in prog["fields"]}
     by_id = {f["id"]: f for f in prog["fields"]}
     leaves = [(p, c) for p, c in crown_sites(prog["crown"]) if c["t"] == "field"]
+    branch_keys = {k for k, c in prog["crown"]["map"] if c["t"] in ("dict", "list")} if prog["crown"]["t"] == "dict" else set()
 
     def py_loader(kind, v):
         if kind == "any":
@@ -1591,6 +1608,15 @@ def oracle_crown_load(ctx, prog, label, datum, mode, strict, real_out, suite="ge
         expected_extra = py_extra_skeleton(prog["crown"], datum)
         mv = prog["move"]
         root_collect = prog["crown"].get("policy") == "collect"
+        if mv == "kwargs" and branch_keys:
+            # keyword arguments are named by the unknown keys: nothing but unknown keys may be passed
+            got = real_out.get("extra")
+            spurious = sorted(k for k, _ in got["dict"] if k in branch_keys) if isinstance(got, dict) and "dict" in got else []
+            if spurious:
+                ctx.fail("extra-kwargs:nested-branch-keys", f"{mode}/{strict}: with ExtraKwargs and a nested layout the "
+                         f"constructor receives the known branch keys {spurious} as keyword arguments "
+                         f"(kwargs = {got!r}); only unknown keys may be delivered", case)
+                return
         if mv in ("kwargs", "saturate"):
             if real_out.get("extra") != safe_enc(expected_extra):
                 ctx.fail(f"{suite}:extra-{mv}", f"{mode}/{strict}: extra delivered to {mv} is {real_out.get('extra')!r}, "
@@ -1654,8 +1680,13 @@ def oracle_crown_load(ctx, prog, label, datum, mode, strict, real_out, suite="ge
                              f"exactly the missing required keys of a dict node", case)
                     return
         if real_out["r"] == "escape":
-            ctx.fail(f"{suite}:escape", f"{mode}/{strict}: {real_out['cls']} escaped from the generated loader: "
-                     f"{real_out.get('detail')}", case)
+            if prog["move"] == "kwargs" and branch_keys and real_out["cls"] == "TypeError":
+                ctx.fail("extra-kwargs:nested-branch-keys", f"{mode}/{strict}: with ExtraKwargs and a nested layout the "
+                         f"known branch keys {sorted(branch_keys)} are passed as keyword arguments and the constructor "
+                         f"call fails: {real_out.get('detail')}", case)
+            else:
+                ctx.fail(f"{suite}:escape", f"{mode}/{strict}: {real_out['cls']} escaped from the generated loader: "
+                         f"{real_out.get('detail')}", case)
 
 
 def py_extra_skeleton(crown, data):
@@ -1719,6 +1750,8 @@ def suite_gen_load(ctx: Ctx, real: Real, drv, n_programs: int, n_combo: int):
         if rep is not None:
             n += 1
             model_out = canon_model_load(rep)
+            if prog["move"] == "kwargs":
+                model_out = kwargs_binding({f["id"] for f in prog["fields"]}, model_out)
             cmp_real = {k: v for k, v in real_out.items() if k != "detail"}
             if model_out != cmp_real:
                 bad += 1
@@ -1744,15 +1777,7 @@ class Dummy:
 EXTRACT_RESULTS = [{"v": {}}, {"v": {"ex1": 1}}, {"v": {"ex1": [1], "ex2": None}}, {"err": "ExtractMarkerError"}]
 
 
-class ExtractMarkerError(Exception):
-    pass
-
-
-def dummy_extractor(obj):
-    res = obj.extract_result_
-    if "err" in res:
-        raise ExtractMarkerError("extract")
-    return dict(res["v"])
+dummy_extractor = extractor
 
 
 DUMP_KIND = {"any": "id", "int": "chk", "str": "chk", "neg": "neg"}
@@ -2150,6 +2175,319 @@ def suite_gen_dump(ctx: Ctx, real: Real, drv, n_programs: int, n_combo: int):
 
 
 # ---------------------------------------------------------------------------
+# suite (b2): real models + name_mapping recipes through the public API
+# ---------------------------------------------------------------------------
+
+def py_crown_from_paths(prog, eff, direction):
+    """The layout the documentation prescribes, as a crown: built from `py_path_of` only (independent of the real
+    crown builder and of the Lean model).  Returns (crown, move) or None when the documented rules give no valid
+    layout (duplicate paths, a path that is a prefix of another, str/int clash, optional field at a list position,
+    skipped required field, collecting policy with lists)."""
+    fields = prog["fields"]
+    req_key = "required" if direction == "inp" else "out_required"
+    paths = {}
+    for f in fields:
+        pth = py_path_of(prog, eff, direction, f)
+        if pth is None:
+            if direction == "inp" and f["required"] and f["id"] not in py_extra_targets(eff["extra_in"]):
+                return None
+            continue
+        if len(pth) == 0:
+            return None
+        paths[f["id"]] = tuple(pth)
+    plist = list(paths.values())
+    if len(set(plist)) != len(plist):
+        return None
+    for a in plist:
+        for b in plist:
+            if a != b and b[:len(a)] == a:
+                return None
+    by_id = {f["id"]: f for f in fields}
+    for fid, pth in paths.items():
+        if isinstance(pth[-1], int) and not by_id[fid].get(req_key, True):
+            return None
+    extra = eff["extra_in"] if direction == "inp" else eff["extra_out"]
+    if direction == "inp":
+        policy = "skip" if extra == "skip" else "forbid" if extra == "forbid" else "collect"
+        move = None if extra in ("skip", "forbid") else extra if isinstance(extra, str) else {"targets": list(extra["targets"])}
+        if policy == "collect" and any(isinstance(el, int) for pth in plist for el in pth):
+            return None
+    else:
+        policy = None
+        move = None if extra == "skip" else extra if isinstance(extra, str) else {"targets": list(extra["targets"])}
+
+    def node(prefix, items):
+        """items: {fid: remaining path}"""
+        heads = {}
+        for fid, rest in items.items():
+            heads.setdefault(rest[0], {})[fid] = rest[1:]
+        kinds = {type(h) for h in heads}
+        if len(kinds) > 1:
+            raise ValueError("str/int clash")
+
+        def child(key, sub):
+            if len(sub) == 1 and next(iter(sub.values())) == ():
+                return {"t": "field", "id": next(iter(sub))}
+            return node((*prefix, key), sub)
+        if kinds == {int}:
+            n = max(heads) + 1
+            mp = [child(i, heads[i]) if i in heads else ({"t": "none"} if direction == "inp" else {"t": "none", "placeholder": None})
+                  for i in range(n)]
+            out = {"t": "list", "map": mp}
+            if direction == "inp":
+                out["policy"] = policy
+            return out
+        out = {"t": "dict", "map": [[k, child(k, sub)] for k, sub in heads.items()]}
+        if direction == "inp":
+            out["policy"] = policy
+        else:
+            sv = []
+            for k, c in out["map"]:
+                if c["t"] == "field":
+                    f = by_id[c["id"]]
+                    if f["default"] is not None and py_omit_holds(eff, f):
+                        d = f["default"]
+                        sv.append([k, enc_val([] if d.get("factory") == "list" else {} if d.get("factory") == "dict" else d["v"])])
+            out["sieves"] = sorted(sv)
+        return out
+
+    if not paths:
+        crown = {"t": "list", "map": []} if eff["as_list"] else {"t": "dict", "map": []}
+        if direction == "inp":
+            crown["policy"] = policy
+        elif crown["t"] == "dict":
+            crown["sieves"] = []
+        return crown, move
+    try:
+        return node((), paths), move
+    except ValueError:
+        return None
+
+
+def plain_default(f):
+    d = f["default"]
+    if "factory" in d:
+        return [] if d["factory"] == "list" else {}
+    return d["v"]
+
+
+def oracle_prog(prog, direction, crown, move):
+    """a (fields, move, crown) description in the format of the hand-made programs"""
+    fields = []
+    for f in prog["fields"]:
+        d = None if f["default"] is None else {"v": plain_default(f)}
+        fields.append({"id": f["id"], "type": f["type"], "default": d,
+                       "required": f["required"] if direction == "inp" else f.get("out_required", True)})
+    return {"fields": fields, "move": move, "crown": crown}
+
+
+def model_request(op, prog, direction, **kw):
+    return {"op": op, **lean_stack(prog, direction), **kw}
+
+
+def observe_model_obj(prog, move):
+    kind = prog["kind"]
+    ids = [f["id"] for f in prog["fields"]]
+
+    def obs(obj):
+        if kind == "typeddict":
+            return {"args": {k: safe_enc(v) for k, v in obj.items()}}
+        out = {"args": {fid: safe_enc(getattr(obj, fid)) for fid in ids}}
+        if move == "kwargs":
+            out["extra"] = safe_enc(obj.kwargs_)
+        elif move == "saturate":
+            out["extra"] = safe_enc(getattr(obj, "saturated_", "<saturator not called>"))
+        return out
+    return obs
+
+
+def kwargs_binding(field_ids, model_out):
+    """`constructor(name=f_name, ..., **extra)`: a key of `extra` equal to a parameter name is a TypeError of the
+    call itself (documented flaw of ExtraKwargs; call binding is C08's subject)"""
+    if model_out and model_out.get("r") == "ok" and isinstance(model_out.get("extra"), dict) and "dict" in model_out["extra"]:
+        if any(k in field_ids for k, _ in model_out["extra"]["dict"]):
+            return {"r": "escape", "cls": "TypeError"}
+    return model_out
+
+
+def fill_defaults(prog, model_out):
+    """fields the generated loader does not pass take the model class' own default (constructor-call planning is C08)"""
+    if not model_out or model_out.get("r") != "ok" or prog["kind"] == "typeddict":
+        return model_out
+    args = dict(model_out["args"])
+    for f in prog["fields"]:
+        if f["id"] not in args and f["default"] is not None:
+            args[f["id"]] = safe_enc(plain_default(f))
+    return {**model_out, "args": args}
+
+
+def suite_models(ctx: Ctx, real: Real, drv, n_programs: int, n_combo: int):
+    progs = []
+    attempts = 0
+    while len(progs) < n_programs and attempts < n_programs * 4:
+        attempts += 1
+        prog = gen_program(ctx.rng, oracle_friendly=(attempts % 3 != 0))
+        try:
+            own, parent = real.prepare(prog)
+        except Exception as e:  # noqa: BLE001
+            raise InfraError(f"cannot build classes for {prog}: {e!r}")
+        real_inp, real_out = real.layouts(prog, own, parent)
+        # keep mostly programs with at least one valid layout; a few invalid ones check the refusal
+        if "error" in real_inp and ("error" in real_out or prog["kind"] == "kwclass") and ctx.rng.random() < 0.8:
+            continue
+        progs.append((prog, own, parent, real_inp, real_out))
+
+    # ---------------- loading ----------------
+    requests, meta = [], []
+    for prog, own, parent, real_inp, _ in progs:
+        kinds = {f["id"]: f["type"] for f in prog["fields"]}
+        eff = py_effective(prog)
+        py = py_crown_from_paths(prog, eff, "inp") if eff is not None else None
+        if "error" in real_inp:
+            data = [("valid", {})]
+        else:
+            base = base_datum(real_inp["crown"], kinds, ctx.rng, salt=ctx.rng.randrange(5))
+            singles = mutations(real_inp["crown"], kinds, base)
+            data = singles + combined_mutations(ctx.rng, real_inp["crown"], kinds, base, singles, n_combo)
+        if py is not None:
+            # data built from the documented paths only (valid + one unknown key per dict node)
+            pbase = base_datum(py[0], kinds, ctx.rng, salt=1)
+            data.append(("doc-valid", pbase))
+            for path, c in crown_sites(py[0]):
+                if c["t"] == "dict":
+                    data.append(("doc-extra@" + "/".join(map(str, path)),
+                                 set_at(pbase, path, {**get_at(pbase, path), "zz_unknown": 1})))
+                if c["t"] == "field" and not next(f for f in prog["fields"] if f["id"] == c["id"])["required"]:
+                    data.append(("doc-absent@" + "/".join(map(str, path)), del_at(pbase, path)))
+        for mode in MODES:
+            for strict in (True, False):
+                for label, datum in data:
+                    requests.append(model_request("model_load", prog, "inp", mode=mode, strict=strict,
+                                                  loaders=kinds, data=enc_val(datum)))
+                    meta.append((prog, own, parent, real_inp, eff, py, mode, strict, label, datum))
+    replies = drv.batch(requests) if drv else [None] * len(requests)
+    n = bad = 0
+    cache_key, loaders = None, {}
+    for (prog, own, parent, real_inp, eff, py, mode, strict, label, datum), rep in zip(meta, replies):
+        if cache_key != id(prog):
+            cache_key, loaders = id(prog), {}
+        if (mode, strict) not in loaders:
+            try:
+                loaders[(mode, strict)] = real.retort(prog, own, parent, mode, strict).get_loader(own)
+            except Exception as e:  # noqa: BLE001
+                loaders[(mode, strict)] = None
+                ctx.dist[f"model-load-no-loader-{type(e).__name__}"] += 1
+        loader_fn = loaders[(mode, strict)]
+        case = {"suite": "model-load", "prog": prog, "mode": mode, "strict": strict, "label": label, "data": safe_enc(datum)}
+        if loader_fn is None:
+            real_o = {"r": "no-loader"}
+            if py is not None and label == "valid":
+                ctx.fail("model-load:no-loader-for-valid-layout", f"{mode}/{strict}: the documented rules give the valid "
+                         f"layout {py[0]} but no loader can be created", case)
+        else:
+            mv = real_inp.get("move")
+            real_o = run_real_loader(real, loader_fn, datum, mode, observe_model_obj(prog, mv))
+            if py is not None:
+                oracle_crown_load(ctx, oracle_prog(prog, "inp", py[0], py[1]), label, datum, mode, strict, real_o,
+                                  suite="model-load")
+        kind = label.split("@")[0].split(":")[0].rstrip("0123456789")
+        ctx.note_case({"prog": prog, "mode": mode, "strict": strict, "data": safe_enc(datum)},
+                      nontrivial=real_o["r"] != "no-loader", kind=f"model-load-{kind}")
+        ctx.dist[f"model-load-outcome-{real_o['r']}"] += 1
+        ctx.sample({"suite": "model-load", "prog": prog, "mode": mode, "strict": strict, "label": label,
+                    "data": safe_enc(datum), "real": real_o}, every=3001)
+        if rep is not None:
+            n += 1
+            model_o = canon_model_load(rep)
+            if isinstance(model_o, dict) and model_o.get("r") == "no-loader":
+                model_o = {"r": "no-loader"}
+            if real_inp.get("move") == "kwargs":
+                model_o = kwargs_binding({f["id"] for f in prog["fields"]}, model_o)
+            model_o = fill_defaults(prog, model_o)
+            cmp_real = {k: v for k, v in real_o.items() if k != "detail"}
+            if model_o != cmp_real:
+                bad += 1
+                ctx.disagree("model-load", case, cmp_real, rep)
+    if drv:
+        ctx.suite("model-load", n, bad)
+
+    # ---------------- dumping ----------------
+    requests, meta = [], []
+    for prog, own, parent, _, real_out in progs:
+        if prog["kind"] == "kwclass":
+            continue
+        eff = py_effective(prog)
+        py = py_crown_from_paths(prog, eff, "out") if eff is not None else None
+        mv = real_out.get("move") if "error" not in real_out else None
+        oprog = oracle_prog(prog, "out", real_out.get("crown"), mv)
+        objs = out_objects(ctx.rng, oprog, n_combo) if "error" not in real_out else \
+            [("valid", {f["id"]: DUMP_GOOD[f["type"]][0] for f in prog["fields"]}, None)]
+        for mode in MODES:
+            for label, obj, extract in objs:
+                if extract is not None and prog["kind"] == "typeddict":
+                    extract = None          # a plain dict cannot carry the marker attribute
+                ex_model = None
+                if mv == "extract":
+                    ex_model = extract if extract is not None else {"v": {"xk": 1}}
+                req = model_request("model_dump", prog, "out", mode=mode,
+                                    dumpers={f["id"]: DUMP_KIND[f["type"]] for f in prog["fields"]},
+                                    obj=[[k, enc_val(v)] for k, v in obj.items()])
+                if ex_model is not None:
+                    req["extracted"] = {"v": enc_val(ex_model["v"])} if "v" in ex_model else {"err": ex_model["err"]}
+                requests.append(req)
+                meta.append((prog, own, parent, real_out, py, mode, label, obj, extract, ex_model))
+    replies = drv.batch(requests) if drv else [None] * len(requests)
+    n = bad = 0
+    cache_key, dumpers = None, {}
+    for (prog, own, parent, real_out, py, mode, label, obj, extract, ex_model), rep in zip(meta, replies):
+        if cache_key != id(prog):
+            cache_key, dumpers = id(prog), {}
+        if mode not in dumpers:
+            try:
+                dumpers[mode] = real.retort(prog, own, parent, mode).get_dumper(own)
+            except Exception as e:  # noqa: BLE001
+                dumpers[mode] = None
+                ctx.dist[f"model-dump-no-dumper-{type(e).__name__}"] += 1
+                if py is not None:
+                    sig = "omit-default:unhashable-default-typeerror" if "unhashable" in repr(e) + repr(e.__cause__) + \
+                        "".join(map(repr, getattr(e.__cause__, "exceptions", ()))) else "model-dump:no-dumper-for-valid-layout"
+                    ctx.fail(sig, f"{mode}: the documented rules give the valid layout {py[0]} but no dumper can be "
+                             f"created: {e!r}", {"suite": "model-dump", "prog": prog, "mode": mode, "label": "creation",
+                                                 "obj": {}, "extract": None})
+        case = {"suite": "model-dump", "prog": prog, "mode": mode, "label": label,
+                "obj": {k: safe_enc(v) for k, v in obj.items()}, "extract": extract}
+        access = "item" if prog["kind"] == "typeddict" else "attr"
+        if dumpers[mode] is None:
+            real_o = {"r": "no-dumper"}
+        else:
+            try:
+                inst = dict(obj) if prog["kind"] == "typeddict" else own(**obj)
+            except Exception as e:  # noqa: BLE001
+                raise InfraError(f"cannot instantiate {prog} with {obj}: {e!r}")
+            if extract is not None:
+                inst.extract_result_ = extract
+            real_o = run_real_dumper(dumpers[mode], inst, mode)
+            if py is not None:
+                oracle_crown_dump(ctx, oracle_prog(prog, "out", py[0], py[1]), label, obj, ex_model, mode, real_o,
+                                  suite="model-dump")
+        kind = label.split("@")[0].split("|")[0].split(":")[0].rstrip("0123456789")
+        ctx.note_case(case, nontrivial=real_o["r"] != "no-dumper", kind=f"model-dump-{kind}")
+        ctx.dist[f"model-dump-outcome-{real_o['r']}"] += 1
+        ctx.sample({"suite": "model-dump", "prog": prog, "mode": mode, "label": label,
+                    "obj": {k: safe_enc(v) for k, v in obj.items()}, "real": real_o}, every=1501)
+        if rep is not None:
+            n += 1
+            model_o = canon_model_dump(rep, mode, access)
+            if isinstance(model_o, dict) and model_o.get("r") == "no-dumper":
+                model_o = {"r": "no-dumper"}
+            if model_o != real_o:
+                bad += 1
+                ctx.disagree("model-dump", case, real_o, rep)
+    if drv:
+        ctx.suite("model-dump", n, bad)
+
+
+# ---------------------------------------------------------------------------
 # entry points
 # ---------------------------------------------------------------------------
 
@@ -2164,11 +2502,157 @@ def run(ctx: Ctx):
     suite_layouts(ctx, real, drv, ctx.budget(400, 6000))
     suite_gen_load(ctx, real, drv, ctx.budget(60, 1500), n_combo=ctx.budget(6, 10))
     suite_gen_dump(ctx, real, drv, ctx.budget(120, 2500), n_combo=ctx.budget(5, 10))
+    suite_models(ctx, real, drv, ctx.budget(80, 1500), n_combo=ctx.budget(4, 8))
+
+
+def oracle_program(ctx: Ctx, real: Real, prog, n_combo=4):
+    """direct oracle on one (model, recipe) program through the public API only (no Lean): data built from the
+    documented paths, every debug_trail x strict_coercion"""
+    import copy
+    prog = copy.deepcopy(prog)
+    own, parent = real.prepare(prog)
+    eff = py_effective(prog)
+    if eff is None:
+        return
+    kinds = {f["id"]: f["type"] for f in prog["fields"]}
+    py = py_crown_from_paths(prog, eff, "inp")
+    if py is not None:
+        base = base_datum(py[0], kinds, ctx.rng, salt=1)
+        data = mutations(py[0], kinds, base) + combined_mutations(ctx.rng, py[0], kinds, base, None, n_combo)
+        for mode in MODES:
+            for strict in (True, False):
+                try:
+                    loader_fn = real.retort(prog, own, parent, mode, strict).get_loader(own)
+                except Exception as e:  # noqa: BLE001
+                    ctx.fail("model-load:no-loader-for-valid-layout", f"{mode}/{strict}: the documented rules give the "
+                             f"valid layout {py[0]} but no loader can be created: {e!r}",
+                             {"suite": "model-load", "prog": prog, "mode": mode, "strict": strict, "label": "valid", "data": {}})
+                    continue
+                for label, datum in data:
+                    real_o = run_real_loader(real, loader_fn, datum, mode, observe_model_obj(prog, py[1]))
+                    ctx.note_case({"prog": prog, "mode": mode, "strict": strict, "data": safe_enc(datum)}, True, "search-load")
+                    oracle_crown_load(ctx, oracle_prog(prog, "inp", py[0], py[1]), label, datum, mode, strict, real_o,
+                                      suite="model-load")
+    if prog["kind"] == "kwclass":
+        return
+    py = py_crown_from_paths(prog, eff, "out")
+    if py is not None:
+        oprog = oracle_prog(prog, "out", py[0], py[1])
+        for mode in MODES:
+            try:
+                dumper_fn = real.retort(prog, own, parent, mode).get_dumper(own)
+            except Exception as e:  # noqa: BLE001
+                sig = "omit-default:unhashable-default-typeerror" if "unhashable" in repr(e) + repr(e.__cause__) + \
+                    "".join(map(repr, getattr(e.__cause__, "exceptions", ()))) else "model-dump:no-dumper-for-valid-layout"
+                ctx.fail(sig, f"{mode}: the documented rules give the valid layout {py[0]} but no dumper can be created: {e!r}",
+                         {"suite": "model-dump", "prog": prog, "mode": mode, "label": "creation", "obj": {}, "extract": None})
+                continue
+            for label, obj, extract in out_objects(ctx.rng, oprog, n_combo):
+                if prog["kind"] == "typeddict":
+                    extract = None
+                ex_model = (extract if extract is not None else {"v": {"xk": 1}}) if py[1] == "extract" else None
+                inst = dict(obj) if prog["kind"] == "typeddict" else own(**obj)
+                if extract is not None:
+                    inst.extract_result_ = extract
+                real_o = run_real_dumper(dumper_fn, inst, mode)
+                ctx.note_case({"prog": prog, "mode": mode, "obj": {k: safe_enc(v) for k, v in obj.items()}}, True, "search-dump")
+                oracle_crown_dump(ctx, oprog, label, obj, ex_model, mode, real_o, suite="model-dump")
 
 
 def search(ctx: Ctx):
-    pass
+    """Directed search after a broken tie: the direct oracle on the disagreeing cases / programs first, then the
+    whole generators with a larger budget (real code only)."""
+    real = Real()
+    seen = set()
+    for d in ctx.disagreements[:300]:
+        case = d["case"]
+        try:
+            if case.get("suite") in ("gen-load", "gen-dump", "model-load", "model-dump") and "label" in case:
+                replay(ctx, case)
+            if "prog" in case and "kind" in case["prog"]:
+                key = repr(case["prog"])
+                if key not in seen and len(seen) < 60:
+                    seen.add(key)
+                    oracle_program(ctx, real, case["prog"])
+        except InfraError:
+            raise
+        except Exception:  # noqa: BLE001,S110 - a case that cannot be rebuilt is skipped, the budgeted search follows
+            pass
+        if ctx.failures:
+            return
+    suite_gen_load(ctx, real, None, 250, n_combo=8)
+    if not ctx.failures:
+        suite_gen_dump(ctx, real, None, 400, n_combo=8)
+    if not ctx.failures:
+        for _ in range(250):
+            prog = gen_program(ctx.rng, oracle_friendly=True)
+            oracle_program(ctx, real, prog)
+            if ctx.failures:
+                break
 
 
 def replay(ctx: Ctx, case) -> bool:
-    return False
+    """re-run one recorded case on the real code; True iff the direct oracle still fails on it"""
+    import copy
+    real = Real()
+    before = len(ctx.failures)
+    suite = case.get("suite")
+    prog = copy.deepcopy(case.get("prog"))
+    if suite == "gen-load":
+        cr = CrownReal(real)
+        datum = dec_val(case["data"])
+        loader_fn = cr.loader(prog, case["mode"], case["strict"])
+        real_o = run_real_loader(real, loader_fn, datum, case["mode"], cr.observe(prog))
+        oracle_crown_load(ctx, prog, case["label"], datum, case["mode"], case["strict"], real_o)
+    elif suite == "gen-dump":
+        cr = CrownRealDump(real)
+        try:
+            dumper_fn = cr.dumper(prog, case["mode"])
+        except Exception as e:  # noqa: BLE001
+            ctx.fail("omit-default:dumper-creation-" + type(e).__name__, f"no dumper can be generated: {e!r}", case)
+            return True
+        if case.get("label") != "creation":
+            obj = {k: dec_val(v) for k, v in case["obj"].items()}
+            dummy = Dummy(**obj)
+            dummy.extract_result_ = case.get("extract")
+            real_o = run_real_dumper(dumper_fn, dummy, case["mode"])
+            oracle_crown_dump(ctx, prog, case["label"], obj, case.get("extract"), case["mode"], real_o)
+    elif suite == "model-load":
+        own, parent = real.prepare(prog)
+        eff = py_effective(prog)
+        py = py_crown_from_paths(prog, eff, "inp") if eff is not None else None
+        if py is None:
+            return False
+        datum = dec_val(case["data"])
+        try:
+            loader_fn = real.retort(prog, own, parent, case["mode"], case["strict"]).get_loader(own)
+        except Exception as e:  # noqa: BLE001
+            ctx.fail("model-load:no-loader-for-valid-layout", f"no loader can be created: {e!r}", case)
+            return True
+        real_o = run_real_loader(real, loader_fn, datum, case["mode"], observe_model_obj(prog, py[1]))
+        oracle_crown_load(ctx, oracle_prog(prog, "inp", py[0], py[1]), case["label"], datum, case["mode"], case["strict"],
+                          real_o, suite="model-load")
+    elif suite == "model-dump":
+        own, parent = real.prepare(prog)
+        eff = py_effective(prog)
+        py = py_crown_from_paths(prog, eff, "out") if eff is not None else None
+        if py is None:
+            return False
+        try:
+            dumper_fn = real.retort(prog, own, parent, case["mode"]).get_dumper(own)
+        except Exception as e:  # noqa: BLE001
+            ctx.fail("model-dump:no-dumper", f"no dumper can be created: {e!r}", case)
+            return True
+        if case.get("label") != "creation":
+            obj = {k: dec_val(v) for k, v in case["obj"].items()}
+            inst = dict(obj) if prog["kind"] == "typeddict" else own(**obj)
+            extract = case.get("extract")
+            if extract is not None and prog["kind"] != "typeddict":
+                inst.extract_result_ = extract
+            ex_model = (extract if extract is not None else {"v": {"xk": 1}}) if py[1] == "extract" else None
+            real_o = run_real_dumper(dumper_fn, inst, case["mode"])
+            oracle_crown_dump(ctx, oracle_prog(prog, "out", py[0], py[1]), case["label"], obj, ex_model, case["mode"],
+                              real_o, suite="model-dump")
+    else:
+        return False
+    return len(ctx.failures) > before
